@@ -129,8 +129,8 @@ Section Sound.
     apply IH. intros c0 Hc0. apply H. right; assumption.
   Qed.
 
-  Lemma pd_filter_wp id k c :
-    (forall s1, Q (fst (k c s1))) -> forall s, Q (fst (pd_filter id k c s)).
+  Lemma pd_filter_wp id pos k c :
+    (forall s1, Q (fst (k c s1))) -> forall s, Q (fst (pd_filter id pos k c s)).
   Proof.
     intros H s. unfold pd_filter. destruct (existsb _ _); [exact QNone | apply H].
   Qed.
@@ -560,7 +560,7 @@ Proof.
   destruct r; simpl; auto.
 Qed.
 
-Lemma pd_filter_mono id k : mono k -> mono (pd_filter id k).
+Lemma pd_filter_mono id pos k : mono k -> mono (pd_filter id pos k).
 Proof.
   intros Hk c s Hs. unfold pd_filter. destruct (existsb _ _); simpl; [reflexivity|]. apply Hk. simpl. exact Hs.
 Qed.
@@ -645,7 +645,7 @@ Proof.
   - eapply IH; eauto.
 Qed.
 
-Lemma pd_filter_clean id k c s : clean (pd_filter id k c s) -> exists s1, clean (k c s1).
+Lemma pd_filter_clean id pos k c s : clean (pd_filter id pos k c s) -> exists s1, clean (k c s1).
 Proof.
   unfold pd_filter. destruct (existsb _ _).
   - intros [_ H]. simpl in H. discriminate.
@@ -739,7 +739,7 @@ Section Complete.
       intros sq [_ IH] pos first c k s Hk H c' Hr. simpl in H.
       destruct (Msq sq) as [_ Mseq].
       edestruct (gfz_clean (fun f c1 k1 s1 => ev_seq F m kf (0 :: pos) sq f c1 k1 s1) sq F kf pos
-                           (pd_filter (nxt s) k)) as [s1 H1]; try exact H; try exact Hr.
+                           (pd_filter (nxt s) pos k)) as [s1 H1]; try exact H; try exact Hr.
       + intros f c1 k1 Hk1. apply Mseq. exact Hk1.
       + intros f c1 k1 s1 Hk1 Hc c2 Hr2. eapply IH; eauto.
       + apply pd_filter_mono. exact Hk.
